@@ -5,7 +5,8 @@
 set -e
 FL=${1:-rel}
 REPO=${UTAP_REPO:-/repo}
-OUT=${VERIF_WORK:-/verif/_work}/lib-$FL
+HERE=$(cd "$(dirname "$0")/.." && pwd)
+OUT=${VERIF_WORK:-$HERE/_work}/lib-$FL
 mkdir -p "$OUT/include"
 case $FL in
   rel)  FLAGS="-O1 -g -DUTAP_VERIF" ;;
@@ -35,5 +36,9 @@ libUTAP.a: \$(OBJS)
 M
 # objects of source files that no longer exist must not linger in the archive
 for o in "$OUT"/*.o; do [ -e "$o" ] || continue; b=$(basename "$o" .o); [ "$b" = parser ] && continue; [ -e "$REPO/src/$b.cpp" ] || rm -f "$o"; done
-make -s -C "$OUT" -j16 all >"$OUT/build.log" 2>&1 || { tail -40 "$OUT/build.log" >&2; echo "BUILD-FAILED $FL" >&2; exit 2; }
+if ! make -s -C "$OUT" -j16 all >"$OUT/build.log" 2>&1; then
+  # an interrupted earlier build can leave a truncated dependency or object file behind: start this flavour from scratch once
+  rm -f "$OUT"/*.d "$OUT"/*.o "$OUT"/libUTAP.a "$OUT"/parser.cpp "$OUT"/lexer.cc "$OUT"/include/parser.hpp
+  make -s -C "$OUT" -j16 all >"$OUT/build.log" 2>&1 || { tail -40 "$OUT/build.log" >&2; echo "BUILD-FAILED $FL" >&2; exit 2; }
+fi
 echo "$OUT/libUTAP.a"
